@@ -345,13 +345,15 @@ pub struct Layout {
     /// stream of layout choices; empty = canonical layout
     pub choices: Vec<u8>,
     pos: std::cell::Cell<usize>,
+    /// no comments / blank lines / trailing whitespace (spelling choices only)
+    pub no_trivia: bool,
 }
 impl Layout {
     pub fn canonical() -> Self {
         Layout::default()
     }
     pub fn new(choices: Vec<u8>) -> Self {
-        Layout { choices, pos: std::cell::Cell::new(0) }
+        Layout { choices, pos: std::cell::Cell::new(0), no_trivia: false }
     }
     /// next choice in 0..n (0 for the canonical layout)
     pub fn pick(&self, n: u8) -> u8 {
@@ -419,7 +421,7 @@ impl Printer<'_> {
     pub fn block(&mut self, b: &[E], ind: usize) {
         for e in b {
             // layout freedom: blank lines and comments between statements
-            match self.layout.pick(8) {
+            match if self.layout.no_trivia { 0 } else { self.layout.pick(8) } {
                 1 => self.out.push('\n'),
                 2 => {
                     self.indent(ind);
@@ -449,7 +451,7 @@ impl Printer<'_> {
             } else {
                 self.out.push_str(&text);
             }
-            match self.layout.pick(6) {
+            match if self.layout.no_trivia { 0 } else { self.layout.pick(6) } {
                 1 => self.out.push_str("  "),
                 2 => self.out.push_str(" # trailing"),
                 _ => {}
